@@ -55,6 +55,10 @@ def _run_one(prop: str, spec: dict[str, Any], workdir: str, idx: int, timeout: f
         }
     with open(outf) as f:
         r = json.load(f)
+    if spec.get("kind") == "replay":
+        # show the monitor's view of the replayed case
+        sys.stdout.write(p.stdout)
+        sys.stderr.write(p.stderr)
     r["shard_wall_s"] = time.time() - t0
     return r
 
